@@ -49,16 +49,33 @@ def bounded(run):
                 if s != okta_ref(3, m):
                     nbad += 1
                     fail(f'perc2okta(scalar 3/{m}*100) = {s}, expected {okta_ref(3, m)}', {'n': 3, 'm': m})
-        for bad in (-0.001, 100.0001, 150.0, -5):
+        tiny = [-1e-16, float(np.nextafter(0, -1)), (0.3 - 0.2 - 0.1) * 100, float(np.nextafter(100, 200)), 100 + 1e-13, -1e-300]
+        for bad in [-0.001, 100.0001, 150.0, -5, float('inf'), -float('inf')] + tiny + [np.array([10., t]) for t in tiny] + \
+                [np.array([t, 100.]) for t in tiny] + [np.float32(-1e-30), np.array([-1], dtype=np.int8), np.array([101], dtype=np.uint8)]:
+            counts['perc2okta'] += 1
             try:
                 wmo.perc2okta(bad)
                 nbad += 1
-                fail(f'perc2okta({bad}) did not refuse', {'val': bad})
+                fail(f'perc2okta({bad!r}) did not refuse', {'val': repr(bad)})
             except AmpycloudError:
                 pass
             except Exception as e:
                 nbad += 1
-                fail(f'perc2okta({bad}) raised {type(e).__name__}', {'val': bad})
+                fail(f'perc2okta({bad!r}) raised {type(e).__name__}', {'val': repr(bad)})
+        # exact percentages in other number types (50 = 1 of 2, 25 = 1 of 4 ...): same oktas, no refusal
+        for dt in (np.uint8, np.int8, np.int16, np.int64, np.float32, np.float64, np.uint16):
+            arr = np.array([0, 25, 50, 75, 100], dtype=dt)
+            counts['perc2okta'] += 1
+            try:
+                got = list(map(int, wmo.perc2okta(arr)))
+                sc = [int(np.ravel(wmo.perc2okta(x))[0]) for x in arr]
+            except Exception as e:
+                nbad += 1
+                fail(f'perc2okta({arr!r}) raised {type(e).__name__}', {'val': repr(arr)})
+                continue
+            if got != [0, 2, 4, 6, 8] or sc != got:
+                nbad += 1
+                fail(f'perc2okta({arr!r}) = {got} (element-wise {sc}), expected [0, 2, 4, 6, 8]', {'val': repr(arr)})
         # okta2code: integers -12..12 of several integer types, and non-integers
         for v in range(-12, 13):
             for conv in (int,):
